@@ -41,6 +41,15 @@ pub enum Strictness {
     Explore,
 }
 
+/// R3 option: the end-of-data forms of C40 / Text / X12 / EDIFACT that hand the last character(s) to ASCII
+/// (rules c and d of 5.2.5.2, the X12 and EDIFACT analogues) are counted for mode sets without ASCII too.
+/// They belong to the latched mode's own end-of-data rule, the crate writes them in such configurations
+/// (C13's statement allows exactly that) and its planner prices them; without the option R3 could not
+/// reproduce 40 % of the symbols the crate reaches there and C10 had no opinion on those inputs.
+fn fallback_bit() -> u8 {
+    0x40
+}
+
 fn caps_of(mask: u64) -> Vec<usize> {
     let mut v = mask_sorted_caps(mask);
     v.dedup();
@@ -87,7 +96,7 @@ enum WitnessResult {
 fn find_witness(data: &[u8], body: &[u8], prefix: &[u8], caps: &[usize], modes: u8) -> WitnessResult {
     let mut crate_rejects = false;
     for cap in caps {
-        let Some((len, script)) = min_len(body, *cap, prefix.len(), modes) else { continue };
+        let Some((len, script)) = min_len(body, *cap, prefix.len(), modes | fallback_bit()) else { continue };
         let stream = run_script(body, &script, prefix, *cap);
         let d = match ref_decode(&stream) {
             Ok(d) => d,
@@ -100,8 +109,8 @@ fn find_witness(data: &[u8], body: &[u8], prefix: &[u8], caps: &[usize], modes: 
         if d.latches.iter().any(|l| modes & l.bit() == 0) {
             return WitnessResult::EngineBug("witness latches into a disabled mode".into());
         }
-        if modes & 1 == 0 && !d.ascii_char_positions().is_empty() && prefix.is_empty() {
-            return WitnessResult::EngineBug("witness uses ASCII characters although ASCII is disabled".into());
+        if modes & 1 == 0 && prefix.is_empty() && d.ascii_char_positions().iter().any(|p| *p + 4 < data.len()) {
+            return WitnessResult::EngineBug("witness uses ASCII characters before the last four although ASCII is disabled".into());
         }
         match guard(|| datamatrix::data::decode_data(&stream)) {
             Ok(Ok(out)) if out == data => return WitnessResult::Found(Witness { cap: *cap, len, stream, script }),
@@ -242,7 +251,7 @@ pub fn check_with(c: &EncCase, strict: Strictness, ctx: &Ctx) -> Verdict {
                 if with_ascii && c.modes & 1 == 0 {
                     continue;
                 }
-                if let Some((alen, ascript)) = min_len(body, w.cap, pre, sub) {
+                if let Some((alen, ascript)) = min_len(body, w.cap, pre, sub | fallback_bit()) {
                     if let Some(p) = planner_price_of_witness(c, body, pre, &ascript) {
                         if p + pre > w.cap && overpriced_alt.is_none() {
                             overpriced_alt = Some((alen, ascript, p + pre));
@@ -353,7 +362,7 @@ pub fn check_with(c: &EncCase, strict: Strictness, ctx: &Ctx) -> Verdict {
     // classification
     let (nontrivial, cls) = match (crate_cap, &dm) {
         (Some(cc), Some(dm)) => {
-            let own = min_len(body, cc, pre, c.modes);
+            let own = min_len(body, cc, pre, c.modes | fallback_bit());
             let uses_non_ascii = own.as_ref().map_or(false, |(_, s)| script_modes(s).iter().any(|m| *m != Mode::Ascii));
             let unpadded = ref_decode(dm.data_codewords()).map(|d| d.unpadded_len()).unwrap_or(cc);
             let near = caps.iter().any(|x| *x >= unpadded && *x - unpadded <= 2);
